@@ -300,7 +300,16 @@ impl BuiltInFunction {
                     fn then(&self, return_value: ReturnValue) -> Result<bool> {
                         let mut result = self.filter_result.0.borrow_mut();
 
-                        if let ReturnValue::Value(Primitive::Bool(true)) = return_value {
+                        // the predicate may answer with a view of a list element or of a field
+                        // (`return flags[x]`)
+                        let keep = match return_value {
+                            ReturnValue::Value(value) => {
+                                matches!(value.move_out_of_heap_primitive()?, Primitive::Bool(true))
+                            }
+                            _ => false,
+                        };
+
+                        if keep {
                             let underlying = self.underlying.0.borrow();
                             let this_index: usize = (self.index.get() - 1).try_into()?;
                             result.push(underlying[this_index].clone());
